@@ -288,7 +288,9 @@ def compare_with_model(ck, run, hdr, recs, model_by_key, stats):
                 continue
             miss = all(v["k"] == "dot" for v in e["v"])
             if e["k"] in ("AC", "SNVPOS", "SNVDP", "DP", "AFPRIOR") or inv:
-                if miss != mm[e["k"]] and not (e["k"] == "AC" and len(rec["alts"]) > 0) and not (e["k"] == "AFPRIOR" and run["prog"] == "assemble"):
+                if e["k"] == "AC" and (len(rec["alts"]) == 0) != (m["nalt"] == 0):
+                    continue
+                if miss != mm[e["k"]] and not (e["k"] == "AFPRIOR" and run["prog"] == "assemble"):
                     probs.append("INFO/%s missing=%s, model %s" % (e["k"], miss, mm[e["k"]]))
         if probs:
             stats["mismatch"].append({"run": run["id"], "record": rec["id"], "shape": shape, "what": probs})
